@@ -14,6 +14,7 @@ type VerifBudgetExceeded struct{ Ticks int }
 type verifState struct {
 	ticks  int
 	budget int
+	onTick func()
 }
 
 var verifStates sync.Map // *Context -> *verifState
@@ -21,6 +22,17 @@ var verifStates sync.Map // *Context -> *verifState
 // VerifSetBudget arms the tick budget of a context (0 disables it).
 func (ctx *Context) VerifSetBudget(budget int) {
 	verifStates.Store(ctx, &verifState{budget: budget})
+}
+
+// VerifSetOnTick installs a callback invoked at every tick (after the budget check), so that a
+// harness can observe the machine once per cycle. Call it after VerifSetBudget (which resets the
+// tick state of the context).
+func (ctx *Context) VerifSetOnTick(f func()) {
+	if s, ok := verifStates.Load(ctx); ok {
+		s.(*verifState).onTick = f
+		return
+	}
+	verifStates.Store(ctx, &verifState{onTick: f})
 }
 
 // VerifTicks returns the number of ticks seen so far.
@@ -44,5 +56,8 @@ func (ctx *Context) VerifTick() {
 	st.ticks++
 	if st.budget > 0 && st.ticks > st.budget {
 		panic(VerifBudgetExceeded{Ticks: st.ticks})
+	}
+	if st.onTick != nil {
+		st.onTick()
 	}
 }
